@@ -671,6 +671,25 @@ func ConflictEvents(w *world.World, ctrl string, name string) []world.Event {
 	return evs
 }
 
+// ConflictEventsAll offers ConflictEvents for every ObjectSet and (built-in class) ObjectSetPhase.
+func ConflictEventsAll(w *world.World) []world.Event {
+	if w.Budget["conflict"] <= 0 {
+		return nil
+	}
+	var evs []world.Event
+	for _, k := range w.S.SortedKeys() {
+		switch {
+		case k.Group == "package-operator.run" && k.Kind == "ObjectSet":
+			evs = append(evs, ConflictEvents(w, world.CtrlObjectSet, k.Name)...)
+		case k.Group == "package-operator.run" && k.Kind == "ObjectSetPhase":
+			if kmodel.Labels(w.S.Objs[k].Content)[corev1alpha1.ObjectSetPhaseClassLabel] == world.PhaseClass {
+				evs = append(evs, ConflictEvents(w, world.CtrlPhase, k.Name)...)
+			}
+		}
+	}
+	return evs
+}
+
 // TemplateOf extracts the ObjectSetTemplateSpec part (phases, probes, successDelay) of a stored
 // ObjectSet or of an ObjectDeployment's template as canonical text.
 func TemplateOf(c map[string]any) string {
